@@ -13,6 +13,11 @@ ROUTE_FIELDS = ["departureTime", "arrivalTime", "totalTravelTime", "totalDistanc
                 "transferWaitingTime", "firstWaitingTime", "totalWaitingTime"]
 
 
+def line_short(i):
+    """short name the harnesses give line i - deliberately not unique (harness/*.cpp verifLineShortname)"""
+    return "" if i % 4 == 3 else "L%d" % (i % 2)
+
+
 def uid(u, kind):
     # 00000000-0000-0000-kkkk-iiiiiiiiiiii
     parts = u.split("-")
@@ -25,7 +30,7 @@ def _ride(st, bad):
     trip = uid(st["tripUuid"], 7); line = uid(st["lineUuid"], 4); path = uid(st["pathUuid"], 5)
     agency = uid(st["agencyUuid"], 2); stop = uid(st["nodeUuid"], 1)
     mode = MODES.index(st["mode"]) if st["mode"] in MODES else -1
-    if (st["nodeCode"] != "c%d" % stop or st["nodeName"] != "n%d" % stop or st["lineShortname"] != "L%d" % line
+    if (st["nodeCode"] != "c%d" % stop or st["nodeName"] != "n%d" % stop or st["lineShortname"] != line_short(line)
             or st["lineLongname"] != "Line%d" % line or st["agencyAcronym"] != "A%d" % agency
             or st["agencyName"] != "Agency%d" % agency or mode < 0 or st["modeName"] != MODE_NAMES[mode]
             or st["nodeCoordinates"] != [float(stop), 0.0]):
@@ -77,7 +82,7 @@ def canon(kind, j):
         ls = []
         for l in res["lines"]:
             line = uid(l["lineUuid"], 4); ag = uid(l["agencyUuid"], 2)
-            if l["lineShortname"] != "L%d" % line or l["lineLongname"] != "Line%d" % line or \
+            if l["lineShortname"] != line_short(line) or l["lineLongname"] != "Line%d" % line or \
                l["agencyAcronym"] != "A%d" % ag or l["agencyName"] != "Agency%d" % ag:
                 bad.append("names")
             ls.append((line, "l%d a%d %d" % (line, ag, l["alternativeCount"])))
